@@ -136,7 +136,7 @@ def run_num(pid, kernel, kname, tier, seed, extra=None, extra_props=()):
                 rep.violation(dict(kind="proof", clause=pf), "theorems of %s no longer check" % pf, dict(theorem_file=pf, log=st["log"][-2000:]))
         rng = vlib.Rng(seed).fork(pid)
         if tier == "quick":
-            params = {0: [(4, "double"), (8, "double"), (4, "float")], 1: [(3, "double"), (5, "double"), (3, "float")]}[kernel]
+            params = {0: [(4, "double"), (8, "double"), (4, "float")], 1: [(3, "double"), (5, "double"), (3, "float"), (7, "float")]}[kernel]
         else:
             params = {0: [(p, r) for p in (4, 6, 8, 12) for r in ("double", "float")], 1: [(p, r) for p in (3, 4, 5, 6, 7, 8) for r in ("double", "float")]}[kernel]
         sc = scenarios(tier, rng)
